@@ -17,7 +17,7 @@ LEVEL = "exploration"
 SHARDS = {"quick": 16, "thorough": 16}
 RULE = ("universes of 3-14 path-backed entities in the local tree with random attribute data (written directly as sidecar JSON) on a random "
         "subset; 3 searches per universe from the C07 family ('*', '>', comma, alias, '**', filters); attributes in {None, subset of written keys, "
-        "unknown keys, 'sid' included}; sid_encode in {str, uri, None-returning}. GetFromPaths(c).get must yield one record per Sid of "
+        "unknown keys, 'sid' included}; sid_encode in {str, uri, None-returning}; one case in four works in a non-default path configuration. GetFromPaths(c).get must yield one record per Sid of "
         "FindInPaths(c).find in the same order, carrying the encoded Sid and exactly that Sid's stored data / requested keys; GetFromAll must equal "
         "GetFromPaths as a multiset for forms whose type has a configured Getter and yield nothing for the others; get_one / get_data / get_attr "
         "are the first record, the record of that Sid, one value. non-trivial = >= 2 records and at least one with stored data; "
@@ -64,14 +64,17 @@ def cases(draw):
                                         ["version"], ["type", "comment"]]))
         enc = draw(st.sampled_from(["str", "str", "uri", "none"]))
         searches.append({"s": sr["s"], "attributes": attrs, "encode": enc})
-    return {"entities": [[t, f] for t, f in ents], "data": data, "searches": searches}
+    others = [c for c in model.paths if c != model.default_config]
+    config = draw(st.sampled_from(others)) if others and draw(st.integers(0, 3)) == 0 else None
+    return {"entities": [[t, f] for t, f in ents], "data": data, "searches": searches, "config": config}
 
 
 def evaluate(case) -> Outcome:
     from spil import FindInPaths, GetFromAll, GetFromPaths, Sid, SpilException, conf
     model = _m()
     m = model.sid
-    cname = model.default_config
+    cname = case.get("config") or model.default_config
+    is_default = cname == model.default_config
     pm = model.paths[cname]
     ents = [(t, f) for t, f in case["entities"]]
     tree.reset(model)
@@ -138,9 +141,9 @@ def evaluate(case) -> Outcome:
         elif dict(one) != (dict(recs[0]) if recs else {}):
             out.add("C16/get_one/not-first-record", f"get_one({s!r}, {attrs}, {enc}) = {dict(one)}, first record {dict(recs[0]) if recs else {} }")
 
-        # GetFromAll
+        # GetFromAll (reads the default path configuration)
         path, q = refsearch.split_search(s)
-        if ">" in s or (q and any(k in refsearch.narrowing_keys(m) for k, _ in refsearch.parse_query(q))):
+        if not is_default or ">" in s or (q and any(k in refsearch.narrowing_keys(m) for k, _ in refsearch.parse_query(q))):
             continue
         try:
             forms = refsearch.unfold(m, s)
@@ -180,6 +183,8 @@ def evaluate(case) -> Outcome:
                 out.add(f"C16/get_attr/raises/{exc_sig(v)}", f"get_attr({u!r}, {k!r}) raised {v!r}")
             elif v != stored.get(s, {}).get(k):
                 out.add("C16/get_attr/differs", f"get_attr({u!r}, {k!r}) = {v!r}, stored {stored.get(s, {}).get(k)!r}")
+            if not is_default:
+                continue
             okb, v2 = call(lambda: sid.get_attr(k))
             okg, g = call(conf.get_getter_for, sid, k, None)
             if okb and okg:
@@ -190,7 +195,7 @@ def evaluate(case) -> Outcome:
                 out.add(f"C16/sid-get_attr/raises/{exc_sig(v2)}", f"Sid({u!r}).get_attr({k!r}) raised {v2!r}")
     # the configuration argument selects the tree: other data in the last configuration's tree must be read from there only
     configs = list(model.paths)
-    if len(configs) >= 2 and ents:
+    if len(configs) >= 2 and ents and is_default:
         other = configs[-1]
         pmo = model.paths[other]
         t0, f0 = ents[0]
